@@ -86,7 +86,7 @@ func mustPub(c *vf.Ctx, blob []byte) ssh.PublicKey {
 }
 
 func run(c *vf.Ctx) {
-	c.Rule("1: signers{rsa2048,rsa1024,p256,p384,p521,ed25519,dsa} x 22 algorithm names; 2: every valid signature x every verifier key (plain + certificate) x every presented format x {same,other data}; " +
+	c.Rule("keys include 17 boundary value classes (ECDSA points with X/Y one or two bytes short on every curve, short scalars, ed25519 public keys starting 00/0000, all-zero seed, 1039-bit RSA modulus, short RSA d) as signers and verifiers; 1: signers{rsa2048,rsa1024,p256,p384,p521,ed25519,dsa,classes} x 22 algorithm names; 2: every valid signature x every verifier key (plain + certificate) x every presented format x {same,other data}; " +
 		"3: per valid signature every blob byte (blob length depends on the signature value) x{^01,^80}, length -1/+1 front/back, empty, structured ECDSA/RSA/Ed25519/sk faults; 4: 2 sk types x 256 flag bytes x 3 counters direct, and x 10 server configurations through a real handshake; " +
 		"5: every ordered list (len 0..3) over allowed+foreign names, nested lists, x every requested algorithm; non-trivial = distinct (part, key, algorithm/fault/flags/config) whose reference verdict and package result were compared; " +
 		"oracle = reference verifier written from RFC 4253/5656/8332/8709 and PROTOCOL.u2f over the standard library")
@@ -189,12 +189,35 @@ func buildKeys(c *vf.Ctx) ([]*keyEnt, ssh.Signer, ed25519.PrivateKey) {
 	dpA := detkeys.Ed25519(seed + "skA")
 	addSoft("ed25519-same-key-as-sk-ed25519-A", sr.FromEd25519(dpA.Public().(ed25519.PublicKey)), dpA, func(f string, d []byte) sr.Sig { return sr.SignEd25519(dpA, d) })
 
+	// boundary value classes (public point coordinates / public keys with leading zero bytes,
+	// short scalars, RSA modulus without sign pad, short d): signers and verifiers like the rest
+	for _, ck := range detkeys.Classes(seed) {
+		switch ck.Name {
+		case "p256-point-x1", "p256-point-y1", "p256-point-xy1", "p256-point-x2", "p256-point-y2", "p384-point-x1", "p384-point-xy1", "p521-point-x1", "p521-point-xy1", "p521-point-y2",
+			"p256-scalar-2-zero-bytes", "p521-scalar-2-zero-bytes", "ed25519-public-1-zero-byte", "ed25519-public-2-zero-bytes", "ed25519-seed-all-zero",
+			"rsa1039-n-and-q-unpadded", "rsa1024-d-2-bytes-short":
+		default:
+			continue
+		}
+		switch {
+		case ck.RSA != nil:
+			priv := ck.RSA
+			addSoft("class:"+ck.Name, sr.FromRSA(&priv.PublicKey), priv, func(f string, d []byte) sr.Sig { return sr.SignRSA(priv, f, d) })
+		case ck.ECDSA != nil:
+			priv := ck.ECDSA
+			addSoft("class:"+ck.Name, sr.FromECDSA(&priv.PublicKey), priv, func(f string, d []byte) sr.Sig { return sr.SignECDSA(rand.Reader, priv, d) })
+		default:
+			priv := ck.Ed25519
+			addSoft("class:"+ck.Name, sr.FromEd25519(priv.Public().(ed25519.PublicKey)), priv, func(f string, d []byte) sr.Sig { return sr.SignEd25519(priv, d) })
+		}
+	}
+
 	// certificates over some of the keys (Verify must behave like the certified key)
 	caPriv := detkeys.Ed25519(seed + "CA")
 	n := len(keys)
 	for i := 0; i < n; i++ {
 		k := keys[i]
-		if strings.HasSuffix(k.name, "-B") && k.ref.Type != sr.ED25519 {
+		if (strings.HasSuffix(k.name, "-B") && k.ref.Type != sr.ED25519) || strings.HasPrefix(k.name, "class:") {
 			continue
 		}
 		ck := &keyEnt{name: "cert(" + k.name + ")", ref: k.ref, isCert: true, skSign: k.skSign, refSign: k.refSign}
